@@ -1207,10 +1207,14 @@ pub trait PrettyPrintCap: ToString {
     fn pretty_print_cap(&self, max_width: usize) -> String {
         let output = self.to_string();
 
-        if output.len() <= max_width {
-            output
-        } else {
-            let (end, _) = output.char_indices().nth(max_width).unwrap();
+        // `max_width` is a number of characters, while `output.len()` is a number of bytes: the
+        // output may be longer than `max_width` bytes and still have at most `max_width`
+        // characters, in which case there's nothing to truncate.
+        let Some((end, _)) = output.char_indices().nth(max_width) else {
+            return output;
+        };
+
+        {
             let mut truncated = String::from(&output[..end]);
 
             if max_width >= 2 {
